@@ -43,6 +43,7 @@ ASSUMPTIONS = ["each pressure-controlled node is controlled by exactly one PC br
 TECHNIQUE = "affine slice-bound analysis with constant-propagated specialisation, role tables for Jacobian slots, kernel value numbering, namespace typing of pit subscripts"
 EXPLANATION += (' ' + '(R1.9) numpy hands out a copy for `pit[rows]` with an index array or a mask: every subscript store whose target is such a copy of a pit (in pipeflow.py, pf/ and component_models/, all functions in normal form) must be read afterwards (stored back, passed on or returned) -- a correction written into the copy only is lost and the balance columns keep their old entries.')
 EXPLANATION += (' ' + '(R1.10) _sum_by_group_sorted adds up adjacent equal keys; every call site hands it keys that are sorted by construction (K[argsort(K)], K[lexsort([.., K])] with K the primary key, np.sort / np.unique output) -- with unsorted keys a junction comes back once per run and the `pit[rows, LOAD] += sums` that follows keeps only the last run.')
+EXPLANATION += (' ' + '(R1.11, shared with C05 R5.8) init_results_element rebinds every result table to a fresh all-NaN frame on every path, so an element that takes no part in the current run cannot report the mass flow of an earlier one.')
 
 def _K(ns, n):
     return ("k", "%s.%s" % (ns, n))
